@@ -115,6 +115,8 @@ theorem inv_step (n : Nat) (s s' : Sys) (t : Tid) (b : Bool) (hi : Inv n s)
   · split at hs
     · cases hs
     rename_i hw
+    split at hs
+    · cases hs
     cases hs
     have hwn : s.wr = none := by simpa using hw
     refine ⟨by simp [hnp], ?_, ?_, ?_⟩
@@ -200,6 +202,13 @@ theorem inv_step (n : Nat) (s s' : Sys) (t : Tid) (b : Bool) (hi : Inv n s)
   · split at hs
     · cases hs
     rename_i hw
+    split at hs
+    rotate_left
+    · -- not announced yet: announce (or queue behind another writer)
+      split at hs
+      · cases hs
+      cases hs
+      exact ⟨rfl, hloc, hidle, hexcl⟩
     split at hs
     · cases hs
     rename_i hany
@@ -351,6 +360,137 @@ theorem inv_run (n : Nat) (s : Sys) (sched : Schedule) (hi : Inv n s) : Inv n (r
     | none => exact ih s hi
     | some s' => exact ih s' (inv_step n s s' t b hi hs)
 
+/-! ### the writer that waits -/
+
+/-- a goroutine that has announced its `Lock` stands at that instruction; nobody is inside the write section then; at
+    most one has announced (writers queue on the mutex's inner lock) -/
+structure PInv (n : Nat) (s : Sys) : Prop where
+  loc : ∀ t, s.pend t = true → (s.th t).pc = 7 ∧ (s.th t).ret = .running ∧ t < n
+  now : ∀ t, s.pend t = true → s.wr = none
+  one : ∀ t u, s.pend t = true → s.pend u = true → t = u
+
+theorem pinv_init (n : Nat) : PInv n init := by
+  refine ⟨?_, ?_, ?_⟩ <;> simp [init]
+
+/-- a step that is not at the `Lock` leaves the waiting writers alone -/
+theorem pinv_quiet (n : Nat) (s s' : Sys) (t : Tid) (hp : PInv n s) (hpc : (s.th t).pc ≠ 7)
+    (hpend : s'.pend = s.pend) (hth : ∀ u, u ≠ t → s'.th u = s.th u) (hwr : s'.wr = s.wr ∨ s'.wr = none) : PInv n s' := by
+  refine ⟨?_, ?_, ?_⟩
+  · intro u hu
+    rw [hpend] at hu
+    have h7 := hp.loc u hu
+    by_cases hut : u = t
+    · subst hut; exact absurd h7.1 hpc
+    · rw [hth u hut]; exact h7
+  · intro u hu
+    rw [hpend] at hu
+    rcases hwr with h | h
+    · rw [h]; exact hp.now u hu
+    · exact h
+  · intro u v hu hv
+    rw [hpend] at hu hv
+    exact hp.one u v hu hv
+
+theorem pinv_step (n : Nat) (s s' : Sys) (t : Tid) (b : Bool) (hi : Inv n s) (hp : PInv n s)
+    (hs : step prog n s t b = some s') : PInv n s' := by
+  obtain ⟨hnp, hloc, hidle, hexcl⟩ := hi
+  have t1 := (hloc t).pcle
+  unfold step at hs
+  simp only [hnp, Bool.false_eq_true, if_false] at hs
+  split at hs
+  · cases hs
+  rename_i htn
+  split at hs
+  · cases hs
+  rename_i hrun
+  have hrun' : (s.th t).ret = .running := by simpa using hrun
+  have others : ∀ (x : TS) (u : Tid), u ≠ t → upd s.th t x u = s.th u := by intro x u hu; simp [upd, hu]
+  rcases prog_at (s.th t).pc t1 with ⟨hpc, hq⟩ | ⟨hpc, hq⟩ | ⟨hpc, hq⟩ | ⟨hpc, hq⟩ | ⟨hpc, hq⟩ |
+    ⟨hpc, hq⟩ | ⟨hpc, hq⟩ | ⟨hpc, hq⟩ | ⟨hpc, hq⟩ | ⟨hpc, hq⟩ | ⟨hpc, hq⟩ | ⟨hpc, hq⟩ | ⟨hpc, hq⟩ |
+    ⟨hpc, hq⟩ | ⟨hpc, hq⟩ | ⟨hpc, hq⟩ | ⟨hpc, hq⟩ <;> rw [hq] at hs <;> simp only at hs
+  case inr.inr.inr.inr.inr.inr.inr.inl =>
+    -- pc 7: lock
+    split at hs
+    · cases hs
+    rename_i hw
+    have hwn : s.wr = none := by simpa using hw
+    split at hs
+    · -- announced before: the readers are gone, it enters
+      rename_i hpt
+      split at hs
+      · cases hs
+      cases hs
+      refine ⟨?_, ?_, ?_⟩
+      · intro u hu
+        by_cases hut : u = t
+        · subst hut; simp [upd] at hu
+        · have hu' : s.pend u = true := by simpa [upd, hut] using hu
+          exact absurd (hp.one u t hu' hpt) hut
+      · intro u hu
+        by_cases hut : u = t
+        · subst hut; simp [upd] at hu
+        · have hu' : s.pend u = true := by simpa [upd, hut] using hu
+          exact absurd (hp.one u t hu' hpt) hut
+      · intro u v hu hv
+        by_cases hut : u = t
+        · subst hut; simp [upd] at hu
+        · have hu' : s.pend u = true := by simpa [upd, hut] using hu
+          exact absurd (hp.one u t hu' hpt) hut
+    · -- announces
+      rename_i hpt
+      split at hs
+      · cases hs
+      rename_i hany
+      cases hs
+      have nobody : ∀ u, s.pend u = false := by
+        intro u
+        cases hu : s.pend u with
+        | false => rfl
+        | true =>
+          have := (hp.loc u hu).2.2
+          simp at hany
+          have := hany u this
+          rw [hu] at this; cases this
+      refine ⟨?_, ?_, ?_⟩
+      · intro u hu
+        by_cases hut : u = t
+        · subst hut; exact ⟨hpc, hrun', Nat.lt_of_not_le htn⟩
+        · have hu' : s.pend u = true := by simpa [upd, hut] using hu
+          rw [nobody u] at hu'; cases hu'
+      · intro u _; exact hwn
+      · intro u v hu hv
+        by_cases hut : u = t
+        · by_cases hvt : v = t
+          · rw [hut, hvt]
+          · have hv' : s.pend v = true := by simpa [upd, hvt] using hv
+            rw [nobody v] at hv'; cases hv'
+        · have hu' : s.pend u = true := by simpa [upd, hut] using hu
+          rw [nobody u] at hu'; cases hu'
+  all_goals first
+    | (cases hs; exact pinv_quiet n s _ t hp (by omega) rfl (others _) (Or.inl rfl))
+    | (cases hs; exact pinv_quiet n s _ t hp (by omega) rfl (others _) (Or.inr rfl))
+    | (cases hs; exact pinv_quiet n s _ t hp (by omega) rfl (fun _ _ => rfl) (Or.inl rfl))
+    | (split at hs <;> first
+        | (cases hs; done)
+        | (cases hs; exact pinv_quiet n s _ t hp (by omega) rfl (others _) (Or.inl rfl))
+        | (cases hs; exact pinv_quiet n s _ t hp (by omega) rfl (others _) (Or.inr rfl))
+        | (cases hs; exact pinv_quiet n s _ t hp (by omega) rfl (fun _ _ => rfl) (Or.inl rfl))
+        | (split at hs <;> first
+            | (cases hs; done)
+            | (cases hs; exact pinv_quiet n s _ t hp (by omega) rfl (others _) (Or.inl rfl))
+            | (cases hs; exact pinv_quiet n s _ t hp (by omega) rfl (fun _ _ => rfl) (Or.inl rfl))))
+
+theorem pinv_run (n : Nat) (s : Sys) (sched : Schedule) (hi : Inv n s) (hp : PInv n s) :
+    PInv n (run prog n s sched) := by
+  induction sched generalizing s with
+  | nil => exact hp
+  | cons a r ih =>
+    obtain ⟨t, b⟩ := a
+    simp only [run]
+    cases hs : step prog n s t b with
+    | none => exact ih s hi hp
+    | some s' => exact ih s' (inv_step n s s' t b hi hs) (pinv_step n s s' t b hi hp hs)
+
 /-- **No crash.** For every number of goroutines and every schedule, the process never hits
     "fatal error: sync: (R)Unlock of unlocked RWMutex" and never returns a nil client. -/
 theorem no_panic (n : Nat) (sched : Schedule) : (run prog n init sched).panicked = false :=
@@ -374,17 +514,22 @@ theorem writer_excludes_readers (n : Nat) (sched : Schedule) (t u : Tid)
   (inv_run n init sched (inv_init n)).excl t u h
 
 /-- **No deadlock.** In every reachable state in which some goroutine has not returned,
-    some goroutine can take a step (the lock holder if there is one). -/
+    some goroutine can take a step: the lock holder if there is one, else a reader that is inside, else the writer
+    that waits (no reader is inside any more), else anybody.  The mutex is Go's: a writer that waits keeps new
+    readers out. -/
 theorem not_stuck (n : Nat) (sched : Schedule) (t : Tid) (htn : t < n)
     (hrun : ((run prog n init sched).th t).ret = .running)
     (hpc : ((run prog n init sched).th t).pc ≤ 16) :
     ∃ u b, (step prog n (run prog n init sched) u b).isSome = true := by
   have hi := inv_run n init sched (inv_init n)
+  have hpi := pinv_run n init sched (inv_init n) (pinv_init n)
   generalize run prog n init sched = s at *
   obtain ⟨hnp, hloc, hidle, hexcl⟩ := hi
-  -- who moves: the writer if any, else a reader if any, else t
+  have anyFalse : ∀ (f : Tid → Bool), (∀ v, f v = false) → (List.range n).any f = false := by
+    intro f hf; simp [hf]
   have enabled : ∀ u, u < n → (s.th u).ret = .running →
-      (s.wr = none ∧ ∀ v, s.rd v = false) ∨ s.wr = some u ∨ (s.wr = none ∧ s.rd u = true) →
+      (s.wr = none ∧ (∀ v, s.rd v = false) ∧ (∀ v, s.pend v = false)) ∨ s.wr = some u ∨ (s.wr = none ∧ s.rd u = true) ∨
+        (s.wr = none ∧ s.pend u = true ∧ ∀ v, s.rd v = false) →
       (step prog n s u true).isSome = true := by
     intro u hun hur hcase
     have hl := hloc u
@@ -393,25 +538,28 @@ theorem not_stuck (n : Nat) (sched : Schedule) (t : Tid) (htn : t < n)
     rcases prog_at (s.th u).pc hl.pcle with ⟨hp, hq⟩ | ⟨hp, hq⟩ | ⟨hp, hq⟩ | ⟨hp, hq⟩ | ⟨hp, hq⟩ |
       ⟨hp, hq⟩ | ⟨hp, hq⟩ | ⟨hp, hq⟩ | ⟨hp, hq⟩ | ⟨hp, hq⟩ | ⟨hp, hq⟩ | ⟨hp, hq⟩ | ⟨hp, hq⟩ |
       ⟨hp, hq⟩ | ⟨hp, hq⟩ | ⟨hp, hq⟩ | ⟨hp, hq⟩ <;> rw [hq] <;> simp only
-    · -- rlock: needs no writer
-      have hw := hl.wr; rw [hp] at hw; simp [inW] at hw
-      rcases hcase with ⟨h, _⟩ | h | ⟨h, _⟩
-      · simp [h]
-      · exact absurd h hw
-      · simp [h]
-    · simp
-    · split <;> simp
-    · split <;> simp
-    · split <;> simp
-    · split <;> simp
-    · simp
-    · -- lock: needs no writer and no reader
+    · -- rlock: needs no writer, inside or waiting
       have hw := hl.wr; rw [hp] at hw; simp [inW] at hw
       have hr := hl.rd; rw [hp] at hr; simp [inR] at hr
-      rcases hcase with ⟨h, hr'⟩ | h | ⟨_, h⟩
-      · simp [h, hr']
+      rcases hcase with ⟨h, _, hpn⟩ | h | ⟨_, h⟩ | ⟨_, h, _⟩
+      · simp [h, anyFalse s.pend hpn]
       · exact absurd h hw
       · rw [hr] at h; cases h
+      · have := (hpi.loc u h).1; omega
+    · simp
+    · split <;> simp
+    · split <;> simp
+    · split <;> simp
+    · split <;> simp
+    · simp
+    · -- lock: announces when nobody waits, enters when the readers are gone
+      have hw := hl.wr; rw [hp] at hw; simp [inW] at hw
+      have hr := hl.rd; rw [hp] at hr; simp [inR] at hr
+      rcases hcase with ⟨h, hr', hpn⟩ | h | ⟨_, h⟩ | ⟨h, hpu, hr'⟩
+      · simp [h, hpn u, anyFalse s.pend hpn]
+      · exact absurd h hw
+      · rw [hr] at h; cases h
+      · simp [h, hpu, anyFalse s.rd hr']
     · simp
     · split <;> simp
     · split <;> simp
@@ -449,12 +597,20 @@ theorem not_stuck (n : Nat) (sched : Schedule) (t : Tid) (htn : t < n)
         | running => rfl
         | ok c => have := hl.ret (by simp [hq]); simp [retPc, inR] at this hrin; omega
         | err => have := hl.ret (by simp [hq]); simp [retPc, inR] at this hrin; omega
-      exact ⟨r, true, enabled r hrn hrr (Or.inr (Or.inr ⟨hw, hr⟩))⟩
+      exact ⟨r, true, enabled r hrn hrr (Or.inr (Or.inr (Or.inl ⟨hw, hr⟩)))⟩
     · have hnr : ∀ v, s.rd v = false := by
         intro v; cases h : s.rd v with
         | false => rfl
         | true => exact absurd ⟨v, h⟩ hr
-      exact ⟨t, true, enabled t htn hrun (Or.inl ⟨hw, hnr⟩)⟩
+      by_cases hpd : ∃ p, s.pend p = true
+      · obtain ⟨p, hpp⟩ := hpd
+        obtain ⟨_, hprun, hpn⟩ := hpi.loc p hpp
+        exact ⟨p, true, enabled p hpn hprun (Or.inr (Or.inr (Or.inr ⟨hw, hpp, hnr⟩)))⟩
+      · have hnp' : ∀ v, s.pend v = false := by
+          intro v; cases h : s.pend v with
+          | false => rfl
+          | true => exact absurd ⟨v, h⟩ hpd
+        exact ⟨t, true, enabled t htn hrun (Or.inl ⟨hw, hnr, hnp'⟩)⟩
 
 /-- the regenerated tokens compile to the program the theorems are about -/
 theorem expected_compiles : compile expectedTokens = prog := by decide
@@ -468,8 +624,8 @@ def pinnedProg : List Instr := compile pinnedTokens
 def crashSchedule : Schedule :=
   [(0, true), (0, true), (0, true), (0, true), (0, true),
    (1, true), (1, true), (1, true), (1, true), (1, true),
-   (0, true), (0, true), (0, true), (0, true), (0, true), (0, true), (0, true),
-   (1, true), (1, true), (1, true), (1, true)]
+   (0, true), (0, true), (0, true), (0, true), (0, true), (0, true), (0, true), (0, true),
+   (1, true), (1, true), (1, true), (1, true), (1, true)]
 
 theorem pinned_program_crashes : (run pinnedProg 2 init crashSchedule).panicked = true := by decide
 
@@ -477,6 +633,32 @@ theorem pinned_program_crashes : (run pinnedProg 2 init crashSchedule).panicked 
 example : (run prog 2 init crashSchedule).panicked = false ∧
     ((run prog 2 init (crashSchedule ++ [(1, true), (1, true)])).th 1).ret = .ok 0 ∧
     ((run prog 2 init crashSchedule).th 0).ret = .ok 0 := by decide
+
+/-! ### what the waiting writer forbids: taking the read lock again inside the read lock
+
+  With Go's `RWMutex` a goroutine that holds the read lock and asks for it again waits behind a writer that has
+  announced itself in between, and that writer waits for the reader: nobody moves.  (The mutex without that rule
+  would let the second `RLock` in.)  `Session.client` never does it — `not_stuck` is about the program as it is —
+  and a program that does is refuted here. -/
+
+/-- the fast path with a helper that takes the read lock itself.  (The model keeps one bit per goroutine for the read
+    lock, not a count: the helper's own `RUnlock`, after which the goroutine still holds the lock once, is the
+    instruction without effect, `addHandler`.) -/
+def nestedProg : List Instr :=
+  [.rlock, .rlock, .lookup, .addHandler, .ifHit 2, .runlock, .retHit, .runlock, .dial, .lock, .lookup, .ifHit 3,
+   .unlock, .closeOwn, .retHit, .insert, .unlock, .addHandler, .retOwn]
+
+/-- goroutine 1 misses and dials and announces its `Lock`; goroutine 0 has taken the read lock once -/
+def nestedSchedule : Schedule :=
+  [(1, true), (1, true), (1, true), (1, true), (1, true), (1, true), (1, true),
+   (0, true), (1, true)]
+
+theorem nested_read_lock_deadlocks :
+    let s := run nestedProg 2 init nestedSchedule
+    (s.th 0).ret = .running ∧ (s.th 1).ret = .running ∧ s.panicked = false ∧
+      ∀ b, (step nestedProg 2 s 0 b).isNone = true ∧ (step nestedProg 2 s 1 b).isNone = true := by
+  refine ⟨by decide, by decide, by decide, ?_⟩
+  intro b; cases b <;> decide
 
 /-! ### "any number of goroutines": the server's queues are bounded and the reader drops
 
